@@ -1,3 +1,319 @@
-(* Properties_C02.v -- placeholder header; theorems are added below as they are proved. *)
-From Amgcl Require Import Scalar QcInst Vec Crs Kernels MatOps Amg.
-Theorem C02_placeholder : True. Proof. exact I. Qed.
+(* Properties_C02.v -- the AMG cycle is a fixed linear, symmetric operator.
+   Statements only; proofs in AmgProofs2.v (lock-step lemma), AmgProofs3.v (A1), AmgProofs4.v /
+   AmgProofs5.v (A2), AmgProofs6.v (A3).  Model: Amg.v cycle/apply (amgcl/amg.hpp:289-297, 515-553),
+   smoothers Relax.v, exact coarse solve DenseSolve.v. *)
+From Coq Require Import QArith Qcanon.
+From Amgcl Require Import Scalar QcInst Vec Crs Kernels KernelsProofs MatOps Relax DenseSolve Amg AmgExec
+  AmgProofs AmgProofs2 AmgProofs3 AmgProofs4 AmgProofs5 AmgProofs6 AmgExamples.
+Local Close Scope Qc_scope.
+Local Close Scope Q_scope.
+Local Open Scope S_scope.
+
+(* ================================================================== *)
+(* A1  history independence: any Scalar whose zero is recognised by is_zero (so also floats
+   with NaN payloads in the scratch vectors).
+   hier_wf  : every sweep keeps lengths and its x-output does not depend on the incoming
+              content of the work vector t; the coarse solver keeps lengths; rows(R_l) = n_{l+1}.
+   scratch_wf : one (f,u,t) record per level with vectors of the level size. *)
+Theorem C02_cycle_history_independent {S : Scalar} (Z : is_zero (@s0 S) = true) npre npost ncycle
+  (lvls : list (@level S)) :
+  hier_wf lvls -> forall scr1 scr2 rhs x,
+  scratch_wf lvls scr1 -> scratch_wf lvls scr2 ->
+  length rhs = top_n lvls -> length x = top_n lvls ->
+  fst (cycle npre npost ncycle lvls scr1 rhs x) = fst (cycle npre npost ncycle lvls scr2 rhs x) /\
+  length (fst (cycle npre npost ncycle lvls scr1 rhs x)) = top_n lvls /\
+  scratch_wf lvls (snd (cycle npre npost ncycle lvls scr1 rhs x)).
+Proof. exact (cycle_history_indep Z npre npost ncycle lvls). Qed.
+Print Assumptions C02_cycle_history_independent.
+
+(* apply: neither the scratch left by earlier applications nor the incoming content of x matters
+   (for every pre_cycles, including 0 = copy) *)
+Theorem C02_apply_history_independent {S : Scalar} (Z : is_zero (@s0 S) = true) npre npost ncycle pre_cycles
+  (lvls : list (@level S)) :
+  hier_wf lvls -> lvls <> [] -> forall scr1 scr2 rhs x1 x2,
+  scratch_wf lvls scr1 -> scratch_wf lvls scr2 ->
+  length rhs = top_n lvls -> length x1 = top_n lvls -> length x2 = top_n lvls ->
+  fst (apply npre npost ncycle pre_cycles lvls scr1 rhs x1) =
+  fst (apply npre npost ncycle pre_cycles lvls scr2 rhs x2) /\
+  length (fst (apply npre npost ncycle pre_cycles lvls scr1 rhs x1)) = top_n lvls /\
+  scratch_wf lvls (snd (apply npre npost ncycle pre_cycles lvls scr1 rhs x1)).
+Proof. exact (apply_history_indep Z npre npost ncycle pre_cycles lvls). Qed.
+Print Assumptions C02_apply_history_independent.
+
+(* after ANY finite history of earlier applications the result is that of a fresh hierarchy *)
+Theorem C02_apply_after_any_history {S : Scalar} (Z : is_zero (@s0 S) = true) npre npost ncycle pre_cycles
+  (lvls : list (@level S)) :
+  hier_wf lvls -> lvls <> [] -> forall hist scr scr0 rhs x x0,
+  Forall (fun fx => length (fst fx) = top_n lvls /\ length (snd fx) = top_n lvls) hist ->
+  scratch_wf lvls scr -> scratch_wf lvls scr0 ->
+  length rhs = top_n lvls -> length x = top_n lvls -> length x0 = top_n lvls ->
+  fst (apply npre npost ncycle pre_cycles lvls
+         (run_history npre npost ncycle pre_cycles lvls scr hist) rhs x) =
+  fst (apply npre npost ncycle pre_cycles lvls scr0 rhs x0).
+Proof. exact (apply_after_any_history Z npre npost ncycle pre_cycles lvls). Qed.
+Print Assumptions C02_apply_after_any_history.
+
+(* the side conditions hold for the modelled smoothers, the exact coarse solve, and every
+   hierarchy that satisfies the Galerkin chain (C03) *)
+Theorem C02_std_smoothers_ok {S : Scalar} (k : @relax_kind S) (A : crs S) :
+  sweep_ok (nrows A) (fst (mk_relax_std k A)) /\ sweep_ok (nrows A) (snd (mk_relax_std k A)).
+Proof. exact (mk_relax_std_ok k A). Qed.
+Print Assumptions C02_std_smoothers_ok.
+
+Theorem C02_exact_solve_ok {S : Scalar} (A : crs S) : solve_ok (nrows A) (mk_solve_exact A).
+Proof. exact (mk_solve_exact_ok A). Qed.
+Print Assumptions C02_exact_solve_ok.
+
+Theorem C02_built_hierarchy_wf {S : Scalar} (k : @relax_kind S) cop (ls : list (@ldesc S)) :
+  coarse_shape cop -> chain cop ls ->
+  hier_wf (std_levels k ls) /\ std_levels k ls <> [] /\
+  scratch_wf (std_levels k ls) (map fresh_scratch ls).
+Proof. exact (std_levels_wf k cop ls). Qed.
+Print Assumptions C02_built_hierarchy_wf.
+
+Theorem C02_apply_history_independent_built {S : Scalar} (Z : is_zero (@s0 S) = true)
+  ce dc ml sc ts (M : crs S) k npre npost ncycle pre_cycles :
+  let lvls := std_levels k (amg_init ce dc ml (coarse_op_of sc) ts M) in
+  forall scr1 scr2 rhs x1 x2,
+  scratch_wf lvls scr1 -> scratch_wf lvls scr2 ->
+  length rhs = nrows M -> length x1 = nrows M -> length x2 = nrows M ->
+  fst (apply npre npost ncycle pre_cycles lvls scr1 rhs x1) =
+  fst (apply npre npost ncycle pre_cycles lvls scr2 rhs x2).
+Proof. exact (built_apply_history_indep Z ce dc ml sc ts M k npre npost ncycle pre_cycles). Qed.
+Print Assumptions C02_apply_history_independent_built.
+
+(* ================================================================== *)
+(* A2  linearity (commutative ring).  vlin a x b y = a*x + b*y pointwise.
+   hier_lin : hier_wf + every sweep jointly linear in (rhs, x) + coarse solve linear in rhs and
+   independent of x + A_l, R_l, P_l with column indices in range, rows(P_l) = n_l. *)
+Theorem C02_cycle_linear {S : Scalar} (Srt : Sring S) (Seqb : seqb_spec S) npre npost ncycle
+  (lvls : list (@level S)) :
+  hier_lin lvls -> forall a b scr1 scr2 scr3 f g x y,
+  scratch_wf lvls scr1 -> scratch_wf lvls scr2 -> scratch_wf lvls scr3 ->
+  length f = top_n lvls -> length g = top_n lvls -> length x = top_n lvls -> length y = top_n lvls ->
+  fst (cycle npre npost ncycle lvls scr3 (vlin a f b g) (vlin a x b y)) =
+  vlin a (fst (cycle npre npost ncycle lvls scr1 f x)) b (fst (cycle npre npost ncycle lvls scr2 g y)).
+Proof. exact (cycle_linear Srt Seqb npre npost ncycle lvls). Qed.
+Print Assumptions C02_cycle_linear.
+
+Theorem C02_apply_linear {S : Scalar} (Srt : Sring S) (Seqb : seqb_spec S) npre npost ncycle pre_cycles
+  (lvls : list (@level S)) :
+  hier_lin lvls -> lvls <> [] ->
+  forall a b scr1 scr2 scr3 f g x1 x2 x3,
+  scratch_wf lvls scr1 -> scratch_wf lvls scr2 -> scratch_wf lvls scr3 ->
+  length f = top_n lvls -> length g = top_n lvls ->
+  length x1 = top_n lvls -> length x2 = top_n lvls -> length x3 = top_n lvls ->
+  fst (apply npre npost ncycle pre_cycles lvls scr3 (vlin a f b g) x3) =
+  vlin a (fst (apply npre npost ncycle pre_cycles lvls scr1 f x1)) b
+         (fst (apply npre npost ncycle pre_cycles lvls scr2 g x2)).
+Proof. exact (apply_linear Srt Seqb npre npost ncycle pre_cycles lvls). Qed.
+Print Assumptions C02_apply_linear.
+
+(* Jacobi, SPAI-0 and the serial Gauss-Seidel sweeps (forward and backward) are jointly linear *)
+Theorem C02_std_smoothers_linear {S : Scalar} (Srt : Sring S) (Seqb : seqb_spec S)
+  (k : @relax_kind S) (A : crs S) : wf A = true ->
+  sweep_lin (nrows A) (fst (mk_relax_std k A)) /\ sweep_lin (nrows A) (snd (mk_relax_std k A)).
+Proof. exact (mk_relax_std_lin Srt Seqb k A). Qed.
+Print Assumptions C02_std_smoothers_linear.
+
+(* the exact coarse solve is linear in rhs and ignores x, whenever it does not break down *)
+Theorem C02_exact_solve_linear {S : Scalar} (Srt : Sring S) (A : crs S) :
+  ncols A = nrows A -> solvable A = true -> solve_lin (nrows A) (mk_solve_exact A).
+Proof. exact (mk_solve_exact_lin Srt A). Qed.
+Print Assumptions C02_exact_solve_linear.
+
+Theorem C02_built_hierarchy_linear {S : Scalar} (Srt : Sring S) (Seqb : seqb_spec S)
+  k ce dc ml sc ts (M : crs S) :
+  wf M = true -> ts_wf (nrows M) ts ->
+  (forall A, In (LSolve A) (amg_init ce dc ml (coarse_op_of sc) ts M) ->
+             ncols A = nrows A /\ solvable A = true) ->
+  hier_lin (std_levels k (amg_init ce dc ml (coarse_op_of sc) ts M)).
+Proof. exact (std_levels_lin Srt Seqb k ce dc ml sc ts M). Qed.
+Print Assumptions C02_built_hierarchy_linear.
+
+Theorem C02_apply_linear_built {S : Scalar} (Srt : Sring S) (Seqb : seqb_spec S)
+  k ce dc ml sc ts (M : crs S) npre npost ncycle pre_cycles :
+  wf M = true -> ts_wf (nrows M) ts ->
+  (forall A, In (LSolve A) (amg_init ce dc ml (coarse_op_of sc) ts M) ->
+             ncols A = nrows A /\ solvable A = true) ->
+  let lvls := std_levels k (amg_init ce dc ml (coarse_op_of sc) ts M) in
+  forall a b scr1 scr2 scr3 f g x1 x2 x3,
+  scratch_wf lvls scr1 -> scratch_wf lvls scr2 -> scratch_wf lvls scr3 ->
+  length f = nrows M -> length g = nrows M ->
+  length x1 = nrows M -> length x2 = nrows M -> length x3 = nrows M ->
+  fst (apply npre npost ncycle pre_cycles lvls scr3 (vlin a f b g) x3) =
+  vlin a (fst (apply npre npost ncycle pre_cycles lvls scr1 f x1)) b
+         (fst (apply npre npost ncycle pre_cycles lvls scr2 g x2)).
+Proof. exact (built_apply_linear Srt Seqb k ce dc ml sc ts M npre npost ncycle pre_cycles). Qed.
+Print Assumptions C02_apply_linear_built.
+
+(* ================================================================== *)
+(* A3  symmetry of the V(1,1)-cycle, any number of levels (commutative ring, trivial conjugation).
+   hier_sym : every A_l symmetric, R_l the dense transpose of P_l, coarse solve symmetric,
+   post-smoother consistent (x' = x + N (f - A x)) and adjoint to the pre-smoother.
+   ip n x y = sum_{i<n} x_i y_i. *)
+Theorem C02_cycle_symmetric {S : Scalar} (Srt : Sring S) (Seqb : seqb_spec S) (lvls : list (@level S)) :
+  hier_sym lvls -> forall scr1 scr2 f g,
+  scratch_wf lvls scr1 -> scratch_wf lvls scr2 ->
+  length f = top_n lvls -> length g = top_n lvls ->
+  ip (top_n lvls) (fst (cycle 1 1 1 lvls scr1 f (vzero (top_n lvls)))) g =
+  ip (top_n lvls) f (fst (cycle 1 1 1 lvls scr2 g (vzero (top_n lvls)))).
+Proof. exact (cycle_sym Srt Seqb lvls). Qed.
+Print Assumptions C02_cycle_symmetric.
+
+Theorem C02_apply_symmetric {S : Scalar} (Srt : Sring S) (Seqb : seqb_spec S)
+  (Hadj : forall a : S, sadj a = a) (lvls : list (@level S)) :
+  hier_sym lvls -> lvls <> [] -> forall scr1 scr2 f g x1 x2,
+  scratch_wf lvls scr1 -> scratch_wf lvls scr2 ->
+  length f = top_n lvls -> length g = top_n lvls ->
+  length x1 = top_n lvls -> length x2 = top_n lvls ->
+  dot (fst (apply 1 1 1 1 lvls scr1 f x1)) g = dot f (fst (apply 1 1 1 1 lvls scr2 g x2)).
+Proof. exact (apply_sym Srt Seqb Hadj lvls). Qed.
+Print Assumptions C02_apply_symmetric.
+
+(* damped Jacobi and SPAI-0 are consistent and self-adjoint *)
+Theorem C02_jacobi_spai0_symmetric_smoothers {S : Scalar} (Srt : Sring S) (Seqb : seqb_spec S)
+  (k : @relax_kind S) : sym_kind k -> forall A : crs S, wf A = true ->
+  sweep_cons (nrows A) A (snd (mk_relax_std k A)) /\
+  sweep_adj (nrows A) (fst (mk_relax_std k A)) (snd (mk_relax_std k A)).
+Proof. exact (mk_relax_std_sym Srt Seqb k). Qed.
+Print Assumptions C02_jacobi_spai0_symmetric_smoothers.
+
+(* the Galerkin operator of a symmetric matrix with R = P^T is symmetric *)
+Theorem C02_galerkin_symmetric {S : Scalar} (Srt : Sring S) (A P R : crs S) n n' :
+  wf A = true -> wf R = true -> sym_mat n A -> transp n n' R P ->
+  forall i j, i < n' -> j < n' -> mget (galerkin A P R) i j = mget (galerkin A P R) j i.
+Proof. exact (galerkin_sym Srt A P R n n'). Qed.
+Print Assumptions C02_galerkin_symmetric.
+
+Theorem C02_apply_symmetric_built {S : Scalar} (Srt : Sring S) (Seqb : seqb_spec S)
+  (Hadj : forall a : S, sadj a = a) k ce dc ml sc ts (M : crs S) :
+  sym_kind k -> wf M = true -> sym_mat (nrows M) M -> ts_sym (nrows M) ts ->
+  (forall A, In (LSolve A) (amg_init ce dc ml (coarse_op_of sc) ts M) ->
+             solve_sym (nrows A) (mk_solve_exact A)) ->
+  let lvls := std_levels k (amg_init ce dc ml (coarse_op_of sc) ts M) in
+  forall scr1 scr2 f g x1 x2,
+  scratch_wf lvls scr1 -> scratch_wf lvls scr2 ->
+  length f = nrows M -> length g = nrows M -> length x1 = nrows M -> length x2 = nrows M ->
+  dot (fst (apply 1 1 1 1 lvls scr1 f x1)) g = dot f (fst (apply 1 1 1 1 lvls scr2 g x2)).
+Proof. exact (built_apply_sym Srt Seqb Hadj k ce dc ml sc ts M). Qed.
+Print Assumptions C02_apply_symmetric_built.
+
+(* with direct_coarse = false nothing is assumed about a coarse solver *)
+Theorem C02_apply_symmetric_built_smoother_coarse {S : Scalar} (Srt : Sring S) (Seqb : seqb_spec S)
+  (Hadj : forall a : S, sadj a = a) k ce ml sc ts (M : crs S) :
+  sym_kind k -> wf M = true -> sym_mat (nrows M) M -> ts_sym (nrows M) ts ->
+  let lvls := std_levels k (amg_init ce false ml (coarse_op_of sc) ts M) in
+  forall scr1 scr2 f g x1 x2,
+  scratch_wf lvls scr1 -> scratch_wf lvls scr2 ->
+  length f = nrows M -> length g = nrows M -> length x1 = nrows M -> length x2 = nrows M ->
+  dot (fst (apply 1 1 1 1 lvls scr1 f x1)) g = dot f (fst (apply 1 1 1 1 lvls scr2 g x2)).
+Proof. exact (built_apply_sym_smoother_coarse Srt Seqb Hadj k ce ml sc ts M). Qed.
+Print Assumptions C02_apply_symmetric_built_smoother_coarse.
+
+(* FULL STATEMENT (unproved), A3 in full:
+   (a) the same for npre = npost = k >= 1 and ncycle = 2 (W-cycle):
+       hier_sym lvls -> dot (fst (apply k k ncycle pc lvls scr1 f x1)) g
+                        = dot f (fst (apply k k ncycle pc lvls scr2 g x2))
+       (for pc = 2 the operator is 2B - BAB, symmetric when B is);
+   (b) forward / backward Gauss-Seidel as (pre, post):  for A symmetric with invertible
+       diagonal (field), sweep_cons n A (backward sweep) and
+       sweep_adj n (forward sweep) (backward sweep);
+   (c) solve_sym (nrows A) (mk_solve_exact A) for symmetric non-singular A (needs the
+       correctness of the Gauss-Jordan solve, A (solve f) = f).
+   The non-symmetry for npre <> npost is exhibited on the concrete hierarchy below
+   (C02_example_asymmetric_when_npre_ne_npost).
+
+   FULL STATEMENT (unproved), B1 contraction in quadratic-form form (ordered field):
+   Inv(B,A) := (forall f g, <B f,g> = <f,B g>) /\ (forall g<>0, <B g,g> > 0) /\
+               (forall g, <A B g, B g> <= <B g, g>);
+   if A is symmetric positive definite, the coarse B_c satisfies Inv w.r.t. the Galerkin A_c
+   and the smoother satisfies <A x,x> <= 2 <D x,x> (damped Jacobi on weakly diagonally
+   dominant matrices) resp. M + M^T - A = D (symmetric GS), then the level's B satisfies Inv
+   and <A (e - B A e), e - B A e> < <A e, e> for e <> 0, for V- and W-cycles and pre_cycles
+   in {1,2}.
+   FULL STATEMENT (unproved), B2 scaling: apply (amg_init (c*A)) = (1/c) * apply (amg_init A). *)
+
+(* ================================================================== *)
+(* closed instances at the exact rationals *)
+Theorem C02_apply_history_independent_Qc ce dc ml sc ts (M : crs QcS) k npre npost ncycle pre_cycles :
+  let lvls := std_levels k (amg_init ce dc ml (coarse_op_of sc) ts M) in
+  forall scr1 scr2 rhs x1 x2,
+  scratch_wf lvls scr1 -> scratch_wf lvls scr2 ->
+  length rhs = nrows M -> length x1 = nrows M -> length x2 = nrows M ->
+  fst (apply npre npost ncycle pre_cycles lvls scr1 rhs x1) =
+  fst (apply npre npost ncycle pre_cycles lvls scr2 rhs x2).
+Proof. exact (built_apply_history_indep (S := QcS) eq_refl ce dc ml sc ts M k npre npost ncycle pre_cycles). Qed.
+Print Assumptions C02_apply_history_independent_Qc.
+
+Theorem C02_apply_linear_Qc k ce dc ml sc ts (M : crs QcS) npre npost ncycle pre_cycles :
+  wf M = true -> ts_wf (nrows M) ts ->
+  (forall A, In (LSolve A) (amg_init ce dc ml (coarse_op_of sc) ts M) ->
+             ncols A = nrows A /\ solvable A = true) ->
+  let lvls := std_levels k (amg_init ce dc ml (coarse_op_of sc) ts M) in
+  forall a b scr1 scr2 scr3 f g x1 x2 x3,
+  scratch_wf lvls scr1 -> scratch_wf lvls scr2 -> scratch_wf lvls scr3 ->
+  length f = nrows M -> length g = nrows M ->
+  length x1 = nrows M -> length x2 = nrows M -> length x3 = nrows M ->
+  fst (apply npre npost ncycle pre_cycles lvls scr3 (vlin a f b g) x3) =
+  vlin a (fst (apply npre npost ncycle pre_cycles lvls scr1 f x1)) b
+         (fst (apply npre npost ncycle pre_cycles lvls scr2 g x2)).
+Proof. exact (built_apply_linear QcS_ring QcS_eqb k ce dc ml sc ts M npre npost ncycle pre_cycles). Qed.
+Print Assumptions C02_apply_linear_Qc.
+
+Theorem C02_apply_symmetric_Qc k ce ml sc ts (M : crs QcS) :
+  sym_kind k -> wf M = true -> sym_mat (nrows M) M -> ts_sym (nrows M) ts ->
+  let lvls := std_levels k (amg_init ce false ml (coarse_op_of sc) ts M) in
+  forall scr1 scr2 f g x1 x2,
+  scratch_wf lvls scr1 -> scratch_wf lvls scr2 ->
+  length f = nrows M -> length g = nrows M -> length x1 = nrows M -> length x2 = nrows M ->
+  dot (fst (apply 1 1 1 1 lvls scr1 f x1)) g = dot f (fst (apply 1 1 1 1 lvls scr2 g x2)).
+Proof. exact (built_apply_sym_smoother_coarse QcS_ring QcS_eqb (fun a => eq_refl) k ce ml sc ts M). Qed.
+Print Assumptions C02_apply_symmetric_Qc.
+
+(* ================================================================== *)
+(* non-vacuity: the hypothesis sets hold on a concrete 3-level hierarchy over Qc
+   (AmgExampleData.v: 1D Laplacian n = 4, two pairwise aggregations, damped Jacobi 2/3,
+   exH: direct solve on the 1x1 level; exH': smoother on the 1x1 level) *)
+Example C02_example_A1_hypotheses :
+  hier_wf exLvls /\ exLvls <> [] /\ scratch_wf exLvls exScr0 /\ scratch_wf exLvls exDirty.
+Proof.
+  destruct (std_levels_wf exJac (@galerkin QcS) exH galerkin_shape
+              (proj1 (amg_init_chain 1 true 10 (@galerkin QcS) exTs exM))) as (H1 & H2 & H3).
+  split; [exact H1|]. split; [exact H2|]. split; [exact H3|].
+  apply std_scratch_check. vm_compute. reflexivity.
+Qed.
+
+Example C02_example_A1_concrete :
+  let z := [exq 0; exq 0; exq 0; exq 0] in
+  vec_eqb (fst (apply 1 1 1 1 exLvls exScr0 exF z)) (fst (apply 1 1 1 1 exLvls exDirty exF exG)) = true /\
+  vec_eqb (fst (apply 1 1 1 1 exLvls exScr0 exF z)) [qc 86 27; qc 145 27; qc 170 27; qc 139 27] = true.
+Proof. vm_compute. auto. Qed.
+
+Example C02_example_A2_hypotheses : hier_lin exLvls.
+Proof.
+  apply (std_levels_lin QcS_ring QcS_eqb exJac 1 true 10 None exTs exM).
+  - vm_compute. reflexivity.
+  - apply ts_wfb_ok. vm_compute. reflexivity.
+  - apply solve_check_ok. vm_compute. reflexivity.
+Qed.
+
+Example C02_example_A3_hypotheses : hier_sym exLvls'.
+Proof.
+  apply (std_levels_sym QcS_ring QcS_eqb exJac 1 false 10 None exTs exM).
+  - exact I.
+  - vm_compute. reflexivity.
+  - apply (sym_matb_ok QcS_eqb). vm_compute. reflexivity.
+  - apply (ts_symb_ok QcS_eqb). vm_compute. reflexivity.
+  - intros A HA. exfalso. apply (build_no_solve _ _ _ _ _ _ _ HA).
+Qed.
+
+(* symmetry needs the symmetric schedule: with npre = 1, npost = 0 (and with npre = 2, npost = 1)
+   the same hierarchy gives <B f, g> <> <f, B g> *)
+Example C02_example_asymmetric_when_npre_ne_npost :
+  let z := [exq 0; exq 0; exq 0; exq 0] in
+  let B := fun npre npost f => fst (apply npre npost 1 1 exLvls exScr0 f z) in
+  seqb (dot (B 1 1 exF) exG) (dot exF (B 1 1 exG)) = true /\
+  seqb (dot (B 1 0 exF) exG) (dot exF (B 1 0 exG)) = false /\
+  seqb (dot (B 2 1 exF) exG) (dot exF (B 2 1 exG)) = false.
+Proof. vm_compute. auto. Qed.
